@@ -71,6 +71,11 @@ def src_limits():
     for k, nm in enumerate(["en_au", "zh_CN", "sr_Latn", "EN", "en-AU", "en_", "fr-", "en-lol ", "e n"]):
         out.append((f"unknown-dialect:{k}", f"# language: {nm}\nFeature: f\n  Scenario: s\n    Given x\n", "en"))
         out.append((f"unknown-dialect-indented:{k}", " " * (k + 1) + f"# language: {nm}\n\t# language: xx\nFeature: f\n  Scenario: s\n    Given x\n", "en"))
+    # one physical line longer than any buffer; identical tag lines at different indentation; a byte-order mark as first character
+    out.append(("long-lines", "Feature: f\n  " + "x" * 70000 + "\n  Scenario: s\n    Given " + "y" * 70000 + "\n", "en"))
+    out.append(("same-tag-line-twice", "  @a @b\nFeature: f\n      @a @b\n  Scenario: s\n\t@a @b\n  Scenario: t\n", "en"))
+    out.append(("bom-first", "\ufeffFeature: f\n  Scenario: s\n", "en"))
+    out.append(("bom-first-comment", "\ufeff# c\nFeature: f\n", "en"))
     # documents that leave a matcher in every non-initial state, each followed by ordinary ones (for re-use passes)
     for k, s in enumerate(["Feature: q\n  Scenario: s\n    Given x\n      \"\"\"\n      open\n", "Feature: ok\n  Scenario: s\n    Given x\n      ```\n      c\n      ```\n    And y\n      \"\"\"\n      d\n      \"\"\"\n",
                            "Feature: b\n  Scenario: s\n    Given x\n        ```\n     open\n", "Feature: i\n    indented description\n  Scenario: s\n    Given x\n      \"\"\"\n      d\n      \"\"\"\n",
@@ -219,4 +224,36 @@ def reuse_pass(rep: Reporter, sources, label: str = "reuse", default: str = "en"
         if reused != fresh:
             rep.violation({"kind": "reused-objects"}, {"engine": "reuse", "what": "a parser / matcher used before gives a different result than fresh ones", "source": s,
                                                       "after": name, "fresh": fresh, "reused": reused})
+    rep.traces += n
+
+
+def compiler_reuse_pass(rep: Reporter, sources, label: str = "compiler-reuse") -> None:
+    """Documents parsed by FRESH parsers (so their ids collide) compiled one after the other by ONE Compiler: each result must equal, ids aside,
+    what a fresh Compiler gives."""
+    import sessions as S
+    from gherkin.parser import Parser
+    from gherkin.token_matcher import TokenMatcher
+    from gherkin.pickles.compiler import Compiler
+    shared = Compiler()
+
+    def strip(ps):
+        return [{k: v for k, v in p.items() if k != "id"} | {"steps": [{a: b for a, b in s.items() if a != "id"} for s in p["steps"]]} for p in ps]
+    n = 0
+    for name, s, d in sources:
+        if known_finding_input(s):
+            continue
+        try:
+            doc = Parser().parse(s, TokenMatcher(d))
+        except Exception:  # noqa: BLE001
+            continue
+        doc["uri"] = "u"
+        n += 1
+        fresh = strip(Compiler().compile(doc))
+        again = strip(shared.compile(doc))
+        rep.case((label, name))
+        if fresh != again:
+            own = AT.owners_pickles(fresh, again) | {"C15"}
+            if rep.prop in own:
+                rep.violation({"kind": "compiler-reuse"}, {"engine": "reuse", "what": "a Compiler that compiled other documents before gives different pickles (ids aside) than a fresh one",
+                                                          "source": s, "fresh": fresh[:3], "reused": again[:3]})
     rep.traces += n
